@@ -59,7 +59,7 @@ def generate(rng, seed, tier='quick'):
         for c in range(1, n):
             trials.append({'cuts': [c], 'gap_us': rng.choice([0, 1, 50]), 'end': 'eof', 'end_off': n})
         for e in range(0, n + 1):
-            trials.append({'cuts': [], 'gap_us': 0, 'end': rng.choice(['eof', 'eof', 'reset']), 'end_off': e,
+            trials.append({'cuts': [], 'gap_us': 0, 'end': rng.choice(['eof', 'eof', 'reset']), 'end_off': e, 'eof_same_wakeup': rng.random() < 0.4,
                            'reopen': rng.random() < 0.5, 'exc': rng.choice(['reset', 'reset', 'timeout', 'abort', 'pipe', 'unreach'])})
         # byte-by-byte
         trials.append({'cuts': list(range(1, n)), 'gap_us': 1, 'end': 'none', 'end_off': n})
@@ -145,7 +145,10 @@ def _run_trial(sc, trial, agg):
                 w.at(t, feed_all, [p])
                 t += gap
         t += 10
-        if trial['end'] == 'eof':
+        if trial['end'] == 'eof' and trial.get('eof_same_wakeup') and gap == 0:
+            # the last bytes and the end of the stream become visible to the reader in one go
+            w.at(1000, peer.eof)
+        elif trial['end'] == 'eof':
             w.at(t, peer.eof)
         elif trial['end'] == 'reset':
             w.at(t, peer.reset, trial.get('exc', 'reset'))
